@@ -93,6 +93,10 @@ func c25Callers(thorough bool) []c25Caller {
 		{Name: "unregistered-prefix-of-registered-token", CN: "v1:2003:tok", Refused: true, Seed: "victim"},
 		{Name: "unregistered-extension-of-registered-token", CN: "v1:2004:tokWW", Refused: true, Seed: "victim"},
 		{Name: "unregistered-empty-token", CN: "v1:2005:", Refused: true, Seed: "victim"},
+		// a registered token with blanks around it is a different, never registered token (round-12 seed)
+		{Name: "unregistered-registered-token-plus-trailing-space", CN: "v1:2017:" + c25TokW + " ", Refused: true, Seed: "victim"},
+		{Name: "unregistered-registered-token-plus-trailing-newline", CN: "v1:2018:" + c25TokW + "\n", Refused: true, Seed: "victim"},
+		{Name: "unregistered-registered-token-with-leading-space", CN: "v1:2019: " + c25TokW, Refused: true, Seed: "victim"},
 		// v1 ids are chosen by the client: the id of a registered client with a token that was never registered
 		{Name: "unregistered-v1-with-id-of-registered-v1", CN: "v1:1001:tokV1", Refused: true, Seed: "victim"},
 		{Name: "unregistered-v1-with-id-of-registered-v2", CN: "v1:1002:tokV2", Refused: true, Seed: "victim"},
